@@ -71,3 +71,6 @@ Definition tuple_lt (a b : list str) : bool := key_ltb a b.
 Definition tuple_le (a b : list str) : bool := key_ltb a b || key_eqb a b.
 Definition tuple_gt (a b : list str) : bool := key_ltb b a.
 Definition tuple_ge (a b : list str) : bool := key_ltb b a || key_eqb b a.
+
+(** s[-1:] *)
+Definition last1 (s : str) : str := match last_opt s with Some c => [c] | None => [] end.
